@@ -33,6 +33,7 @@ const (
 	prExactExpiryInstant
 	prLateAfterEviction
 	prMultiEvictOneCall
+	prWidePair
 	nRProbes
 )
 
@@ -40,7 +41,7 @@ var rProbeNames = []string{"overflow_eviction", "timeout_eviction", "complete_ev
 	"sequence_reused_after_delivery", "sequence_0_delivered", "rollover_inside_buffer", "events_lost_reported",
 	"eoe_completed_buffered_event", "close_flushed_events", "maintain_flushed_events", "push_after_close",
 	"overflow_eviction_of_incomplete_head", "window_edge_offset_used", "call_at_exact_expiry_instant",
-	"late_arrival_after_eviction", "several_evictions_in_one_call"}
+	"late_arrival_after_eviction", "several_evictions_in_one_call", "two_sequence_numbers_more_than_2^24_apart"}
 
 // callback records of one call
 type rGroup struct {
@@ -177,10 +178,24 @@ func ExecRPlan(p *RPlan, trace bool) *core.Result {
 		}
 		res.Add(prop, kind, class, fmt.Sprintf(f, a...))
 	}
-	seqOf := func(off uint32) uint32 { return p.Base + off }
+	seqOf := func(off uint32) uint32 {
+		if p.WideB != 0 && off == 1 {
+			return p.WideB
+		}
+		return p.Base + off
+	}
 	offOf := func(seq uint32) (uint32, bool) {
+		if p.WideB != 0 {
+			if seq == p.WideB {
+				return 1, true
+			}
+			return 0, seq == p.Base
+		}
 		o := seq - p.Base
 		return o, o <= spanMax
+	}
+	if p.WideB != 0 {
+		res.Probes[prWidePair]++
 	}
 	head := func() *rInst {
 		var hd *rInst
